@@ -152,10 +152,10 @@ def run(ctx):
     corpus = []
     for f in sorted((ctx.dir / "corpus").glob("*.json")):
         corpus += json.loads(f.read_text())["histories"]
-    n_rand = 30 if ctx.quick else 400
+    n_rand = 30 if ctx.quick else 170
     rand = gen_histories(r, pool, n_rand, 3, 9 if ctx.quick else 14)
     # long histories advance the counters far (digit roll-overs at 10 / 100)
-    rand += gen_histories(r, pool, 3 if ctx.quick else 30, 25, 40)
+    rand += gen_histories(r, pool, 3 if ctx.quick else 15, 25, 40)
     histories = corpus + rand
     res_all, pool_impl, meta = run_impl(ctx, fresh_hist + histories)
     assert pool_impl == pool, (pool_impl, pool)
